@@ -302,6 +302,7 @@ func (fc *FnCtx) applyContract(fr *Frame, st *State, instr ssa.Instruction, spec
 		ps := st.clone()
 		pc := fc.fresh("panics", SBool)
 		ps.pc = tAnd(st.pc, pc)
+		ps.why = "callee " + spec.Target + " may panic (" + fc.posOf(pos) + ")"
 		fr.panics = append(fr.panics, ps)
 		st.pc = fc.nameTerm("pc_np", tAnd(st.pc, tNot(pc)))
 	}
@@ -411,7 +412,9 @@ func (fc *FnCtx) doInvoke(fr *Frame, st *State, instr ssa.Instruction, c *ssa.Ca
 				return g
 			}
 			if fr.spec != nil && (fr.spec.MayPanic || frameRecovers(fr)) || fc.headerMethodsMayPanic(fr) {
-				fc.forkPanic(fr, st, "hdr_"+method)
+				fc.forkPanic(fr, st, "the header type's "+method+" panics")
+			} else {
+				fc.assumptions["A-total: the header type's "+method+" does not panic where no recover() is in scope (in "+fc.name+")"] = true
 			}
 			return havocRes("hdr_" + method)
 		}
@@ -443,18 +446,51 @@ func (fc *FnCtx) doInvoke(fr *Frame, st *State, instr ssa.Instruction, c *ssa.Ca
 	return havocRes("inv_" + method)
 }
 
-func frameRecovers(fr *Frame) bool { return fr.fn.Recover != nil }
+func frameRecovers(fr *Frame) bool { return fnRecovers(fr.fn) }
 
 // headerMethodsMayPanic: decoding / validation / verification of the header type may panic only where
 // the enclosing top-level function declares so (maypanic or has a recover).
 func (fc *FnCtx) headerMethodsMayPanic(fr *Frame) bool {
-	return fc.topFrame != nil && fc.topFrame.fn.Recover != nil
+	return fc.topFrame != nil && fnRecovers(fc.topFrame.fn)
+}
+
+// fnRecovers: the function defers a closure that calls recover(), i.e. it is written to contain panics.
+func fnRecovers(fn *ssa.Function) bool {
+	for _, b := range fn.Blocks {
+		for _, instr := range b.Instrs {
+			d, ok := instr.(*ssa.Defer)
+			if !ok {
+				continue
+			}
+			var callee *ssa.Function
+			switch v := d.Common().Value.(type) {
+			case *ssa.MakeClosure:
+				callee = v.Fn.(*ssa.Function)
+			case *ssa.Function:
+				callee = v
+			}
+			if callee == nil {
+				continue
+			}
+			for _, cb := range callee.Blocks {
+				for _, ci := range cb.Instrs {
+					if c, ok := ci.(*ssa.Call); ok {
+						if bi, ok := c.Common().Value.(*ssa.Builtin); ok && bi.Name() == "recover" {
+							return true
+						}
+					}
+				}
+			}
+		}
+	}
+	return false
 }
 
 func (fc *FnCtx) forkPanic(fr *Frame, st *State, why string) {
 	pc := fc.fresh("panics_"+why, SBool)
 	ps := st.clone()
 	ps.pc = tAnd(st.pc, pc)
+	ps.why = why
 	fr.panics = append(fr.panics, ps)
 	st.pc = fc.nameTerm("pc_np", tAnd(st.pc, tNot(pc)))
 }
